@@ -296,11 +296,7 @@ def _restart(ctx, oracle, op):
     ctx.world.new_generation()
     try:
         if op.get('reuse'):
-            from .disk import SimFile as _SF
-            old.close()
-            fp = _SF(disk, 'rb')
-            old.open_fp(fp)
-            d.iso, d.cur_fp = old, fp
+            d.iso, d.cur_fp = d.reopen_same_object(old, disk, decoy=(op.get('reuse') == 'decoy'))
             old = None
         else:
             d.iso, d.cur_fp = d.open_disk(disk)
